@@ -110,6 +110,7 @@ type c20World struct {
 	dir     string
 	log     []string
 	members map[int]bool
+	nudge   int
 }
 
 func (w *c20World) start(n *c20Node, joining bool) error {
@@ -177,16 +178,22 @@ func (w *c20World) settle(max time.Duration) bool {
 		if l == nil {
 			stable = 0
 			// help a bootstrap / surviving node along
+			// one connected member at a time, a different one each round (a member whose log is behind cannot win and
+			// would only keep raising the term)
+			var up []*c20Node
 			for _, n := range w.live() {
 				if w.members[n.id] {
 					w.net.mu.Lock()
 					c := w.net.cut[uint64(n.id)]
 					w.net.mu.Unlock()
 					if !c {
-						n.srv.VerifZeroGroup().VerifCampaign()
-						break
+						up = append(up, n)
 					}
 				}
+			}
+			if len(up) > 0 {
+				up[w.nudge%len(up)].srv.VerifZeroGroup().VerifCampaign()
+				w.nudge++
 			}
 			time.Sleep(150 * time.Millisecond)
 			continue
